@@ -99,7 +99,7 @@ func runSentence(c GCase, o sentenceOpts) *sentenceResult {
 	gd := gram.NewGuard(env.Base)
 	gd.MaxEvents, gd.MaxCalls = 100000, 150000
 	res.Guard = gd
-	h := &gram.Hooks{Inside: gd.Inside, Outside: gd.Outside, NoMemo: o.NoMemo, Interp: concatInterp()}
+	h := &gram.Hooks{Inside: gd.Inside, Outside: gd.Outside, NoMemo: o.NoMemo, Interp: concatInterp(), ShareLeaves: true}
 	if !o.NoMemo {
 		h.MemoExpr = c.MemoExpr
 	}
